@@ -279,12 +279,91 @@ def check_doc(term, part, styles):
                 part.nontrivial += 1
 
 
+def scaled_values():
+    yield 'ints-6000', list(range(6000)), {'max_seq_len': None}
+    yield 'records-400', [{'id': i, 'name': 'n%d' % i, 'tags': ('a', i)} for i in range(400)], {}
+    yield 'records-1500', [{'id': i, 'name': 'n%d' % i} for i in range(1500)], {'max_seq_len': 2000}
+    yield 'long-strings', ['word ' * 40] * 300, {}
+
+
+def check_scaled(part, styles):
+    """Renders of tens of thousands of pieces (texts, escapes, line breaks): same text, ends in reset."""
+    from prettyprinter import cpprint, pformat
+    for name, v, kw in scaled_values():
+        for w in (20, 79):
+            plain = pformat(v, width=w, **kw)
+            for sname, style in styles[:2]:
+                part.n += 1
+                case = {'scaled_value': name, 'width': w, 'style': sname, 'settings': {k: repr(x) for k, x in kw.items()}}
+                s = io.StringIO()
+                try:
+                    cpprint(v, stream=s, style=style, width=w, end='', **kw)
+                    chars, final = decode(s.getvalue())
+                except Exception as e:     # noqa
+                    part.violation('style-makes-rendering-fail', case, '%s: %s' % (type(e).__name__, e))
+                    continue
+                text = ''.join(c for c, _ in chars)
+                if text != plain:
+                    j = next((i for i, (a, b) in enumerate(zip(text, plain)) if a != b), min(len(text), len(plain)))
+                    part.violation('text-differs-from-plain', case, {'lengths': [len(text), len(plain)], 'first_difference_at': j,
+                                                                   'colored_stripped': text[max(0, j - 40):j + 40], 'plain': plain[max(0, j - 40):j + 40]})
+                elif final != RESET:
+                    part.violation('stream-does-not-end-in-reset', case, {'final_state': repr(final)})
+                else:
+                    part.nontrivial += 1
+                part.c['scaled_pieces'] += len(chars)
+
+
+def check_environment(part):
+    """Width not given: the coloured output is laid out with the same configured default as the plain
+    output, whatever the terminal says (COLUMNS / LINES in the environment)."""
+    import os
+    from prettyprinter import cpprint, pprint
+    vals = [['word'] * 14, {'key%d' % i: 'v' * 9 for i in range(6)}, 'lorem ipsum ' * 9, Call(1, [2] * 20, kw='v' * 30)]
+    saved = {k: os.environ.get(k) for k in ('COLUMNS', 'LINES')}
+    try:
+        for cols in (None, '200', '79', '60', '40', '12'):
+            if cols is None:
+                os.environ.pop('COLUMNS', None)
+            else:
+                os.environ['COLUMNS'] = cols
+                os.environ['LINES'] = '10'
+            for vi, v in enumerate(vals):
+                part.n += 1
+                case = {'environment': {'COLUMNS': cols}, 'value': repr(v)[:80], 'width': 'not given'}
+                a, b = io.StringIO(), io.StringIO()
+                try:
+                    cpprint(v, stream=a)
+                    pprint(v, stream=b)
+                    chars, final = decode(a.getvalue())
+                except Exception as e:     # noqa
+                    part.violation('style-makes-rendering-fail', case, '%s: %s' % (type(e).__name__, e))
+                    continue
+                text = ''.join(c for c, _ in chars)
+                if text != b.getvalue():
+                    part.violation('text-differs-from-plain', case, {'colored_stripped': text, 'plain': b.getvalue()})
+                else:
+                    part.nontrivial += 1
+    finally:
+        for k, x in saved.items():
+            if x is None:
+                os.environ.pop(k, None)
+            else:
+                os.environ[k] = x
+
+
 def work(item):
     fixtures.register()
     set_mode('true')
     kind = item[0]
     part = core.Part()
     styles = all_styles()
+    if kind == 'scaled':
+        check_scaled(part, styles)
+        return part
+    if kind == 'environment':
+        check_environment(part)
+        return part
     if kind == 'values':
         _, lo, hi, modes, widths = item
         for vi, v in itertools.islice(enumerate(corpus()), lo, hi):
@@ -339,9 +418,12 @@ def run(tier, seed):
         total = sum(1 for _ in a.gen(n))
         items += [('docs', n, lo, hi) for lo, hi in core.chunks(total, 1 if total < 500 else 48)]
         desc.append('annotated documents with %d nodes: %d' % (n, total))
+    items += [('scaled',), ('environment',)]
     res.add(core.pmap(work, items))
     res.coverage = {
         'exhaustive': True,
+        'scaled': '%s at widths {20,79} x 2 styles (renders of 30 000 .. 200 000 pieces); environment: width not given, '
+                  'COLUMNS in {unset,200,79,60,40,12} x 4 values, cpprint against pprint' % [n for n, _, _ in scaled_values()],
         'rule': 'every corpus value x widths %s x every style x modes %s; every annotated document of the stated sizes '
                 '(annotation nesting <= 3) x widths {80, 1} x 5 styles; non-trivial = true-colour cases whose per-character '
                 'styles were matched (values) / documents with annotation nesting >= 2' % (list(widths), list(modes)),
@@ -359,6 +441,12 @@ def replay(case):
     styles = [s for s in all_styles() if s[0] == case.get('style')]
     if 'term' in case:
         check_doc(case['term'], part, styles)
+    elif 'scaled_value' in case:
+        check_scaled(part, all_styles())
+        part.violations = [v for v in part.violations if v['case'] == case]
+    elif 'environment' in case:
+        check_environment(part)
+        part.violations = [v for v in part.violations if v['case'] == case]
     else:
         v = list(corpus())[case['value_index']]
         check_value(v, case['value_index'], part, styles, (case['mode'],), (case['width'],))
